@@ -1,11 +1,13 @@
 import DtsVerif.Props.C01
+import DtsVerif.Props.ObsSpec
 import Mathlib.Tactic.Positivity
 import Mathlib.Tactic.FieldSimp
 /-!
 # C07 — fixed parameters are honoured and their uncertainty enters the fit correctly
 -/
 namespace DtsVerif.C07
-open DtsVerif.Wls DtsVerif.Calib DtsVerif.Theory
+open DtsVerif.Wls DtsVerif.Calib DtsVerif.Theory DtsVerif.ObsSpec
+set_option linter.unusedSimpArgs false
 
 /-- **C07 (reported as supplied).** value, variance and zero covariances of a fixed parameter -/
 theorem C07_fixed_reported (inp : Input) (res : Result) (h : calibrate inp = some res)
@@ -50,5 +52,56 @@ theorem C07_reduceObs_single (inp : Input) (col : Nat) (cf y v a va : Rat) (hf :
 
 /-- non-vacuity: the sign for which the old update failed -/
 example : 0 < 1 / inflatedVar 1 (-3) 2 := by norm_num [inflatedVar]
+
+/-! ## The model's reduction of an observation is the Spec's `redY` / `redW` -/
+
+/-- the fixed part of an observation: (coefficient, supplied value, supplied variance) of every fixed parameter it involves -/
+def fixedPart (inp : Input) (o : Input.Obs) : List (Rat × Rat × Rat) :=
+  o.c.filterMap fun cv => (inp.fixedCol cv.1).map fun av => (cv.2, av.1, av.2)
+
+/-- the free part: the coefficients that stay unknowns -/
+def freePart (inp : Input) (o : Input.Obs) : List (Nat × Rat) :=
+  o.c.filter fun cv => (inp.fixedCol cv.1).isNone
+
+theorem reduce_fold (inp : Input) (f : List (Nat × Rat) × Rat × Rat → Nat × Rat → List (Nat × Rat) × Rat × Rat)
+    (hsome : ∀ acc cv a va, inp.fixedCol cv.1 = some (a, va) → f acc cv = (acc.1, acc.2.1 - cv.2 * a, acc.2.2 + cv.2 * cv.2 * va))
+    (hnone : ∀ acc cv, inp.fixedCol cv.1 = none → f acc cv = (acc.1 ++ [cv], acc.2.1, acc.2.2))
+    (l : List (Nat × Rat)) (acc : List (Nat × Rat) × Rat × Rat) :
+    l.foldl f acc
+    = (acc.1 ++ l.filter (fun cv => (inp.fixedCol cv.1).isNone),
+       acc.2.1 - ((l.filterMap fun cv => (inp.fixedCol cv.1).map fun av => (cv.2, av.1, av.2)).map fun t => t.1 * t.2.1).sum,
+       acc.2.2 + ((l.filterMap fun cv => (inp.fixedCol cv.1).map fun av => (cv.2, av.1, av.2)).map fun t => t.1 ^ 2 * t.2.2).sum) := by
+  induction l generalizing acc with
+  | nil => simp
+  | cons cv l ih =>
+    rw [List.foldl_cons, ih]
+    cases h : inp.fixedCol cv.1 with
+    | none =>
+      rw [hnone acc cv h]
+      simp [h, List.filter_cons, List.filterMap_cons]
+    | some av =>
+      obtain ⟨a, va⟩ := av
+      rw [hsome acc cv a va h]
+      simp only [h, List.filter_cons, List.filterMap_cons, Option.isNone_some, Option.map_some, List.map_cons, List.sum_cons]
+      refine Prod.ext (by simp) (Prod.ext ?_ ?_)
+      · simp only; ring
+      · simp only; ring
+
+/-- **C07 (the model's reduction is the Spec's).** Moving the fixed parameters of an observation over gives: the free coefficients
+unchanged and in order, the value `ObsSpec.redY`, and the weight `ObsSpec.redW` of the observation's own weight `1/v` (rounded to
+the model's working precision) — the same `redY` / `redW` that the translator proves the source's statements to be. -/
+theorem C07_reduceObs_is_spec (inp : Input) (o : Input.Obs) (hv : o.v ≠ 0) :
+    (inp.reduceObs o).c = freePart inp o ∧
+    (inp.reduceObs o).y = redY o.y ((fixedPart inp o).map fun t => (t.1, t.2.1)) ∧
+    (inp.reduceObs o).w = roundDyadic inp.wbits (redW (1 / o.v) ((fixedPart inp o).map fun t => (t.1, t.2.2))) := by
+  unfold Input.reduceObs
+  rw [reduce_fold inp _ (by intro acc cv a va h; simp [h]) (by intro acc cv h; simp [h])]
+  refine ⟨by simp [freePart], ?_, ?_⟩
+  · simp only [redY, fixedPart, List.map_map]
+    congr 2
+  · simp only [fixedPart, List.map_map]
+    rw [redW_eq_inv_inflated o.v _ hv]
+    simp only [List.map_map]
+    congr 4
 
 end DtsVerif.C07
